@@ -104,7 +104,7 @@ func main() {
 	e := lib.Init("C07", "exploration")
 	e.RunScriptWitnesses()
 	e.Assume(
-		"every cell runs in a fresh CLI process; cross-cell interactions (caches shared by successive accesses) are not explored",
+		"every matrix cell runs in a fresh CLI process; repeated execution of one access site from different scopes is explored by the 'shared site' family only",
 		"protected members accessed from a strict ancestor of the declaring class are executed but not judged (PHP allows it, the statement's wording excludes it)",
 		"a cell is judged only when its public / accepted control on the same path and site works, so unsupported syntax is not reported as a visibility or type defect",
 	)
@@ -118,6 +118,9 @@ func main() {
 	}
 	for i := 0; i < e.Pick(1, 3); i++ {
 		cases = append(cases, genTypeCases(newShortTypeFixture(e, i))...)
+	}
+	for i := 0; i < e.Pick(1, 3); i++ {
+		cases = append(cases, genSharedCases(newSharedFixture(e, i))...)
 	}
 	nabs := e.Pick(1, 4)
 	for i := 0; i < nabs; i++ {
